@@ -56,6 +56,32 @@ def gen_case(rng, ci, quick):
             rev += 1; oppw = newpw      # the Operator flag of a session stays with the session; only the password changes
         if rng.random() < 0.6:
             add("G")
+    def inject():
+        """raw Config entries in the log that no caught-up handler would have let through (op H): what a handler that lagged
+        behind the log proposes (D20), or an update proposed twice"""
+        nonlocal rev, oppw
+        def H(r, body): add("H:%d:%s" % (r, hx(body)), {"inject": r})
+        kind = rng.choice(["stale", "stale", "duplicate", "future", "unparsable", "valid", "stale-then-valid"])
+        pw = "inj-%d" % rng.randint(0, 9)
+        good = cfg(pw, extra=rng.choice(["", "MaxChannels = %d\n" % rng.randint(10, 40)]))
+        if kind == "stale":
+            H(rng.randint(0, rev), good)
+        elif kind == "future":
+            H(rev + rng.randint(2, 4), good)
+        elif kind == "unparsable":
+            H(rev + 1, rng.choice(INVALID))
+        elif kind == "valid":
+            H(rev + 1, good); rev += 1; oppw = pw
+        elif kind == "duplicate":           # the same update twice, optionally with traffic in between: the second copy has no effect
+            H(rev + 1, good); rev += 1; oppw = pw
+            if rng.random() < 0.5 and alive:
+                add(I(rng.choice(sorted(alive)), "PING between"))
+            H(rev, rng.choice([good, cfg("other-body")]))
+        else:                               # a stale copy of revision n, then the legitimate update n+1 through the handler
+            H(rng.randint(0, rev), good)
+            post(valid=True, how="current")
+        if rng.random() < 0.6:
+            add("G")
     post(valid=True, how="current")        # a configuration with operator + trusted bridge, so that traffic has addresses
     ns = rng.randint(2, 4)
     for k in range(ns):
@@ -66,8 +92,12 @@ def gen_case(rng, ci, quick):
         add(I(0, "OPER verifop " + oppw)); isoper.add(0)
     for _ in range(steps):
         r = rng.random()
-        if r < 0.40:
+        if r < 0.25:
             post()
+        elif r < 0.45:
+            inject()
+            if rng.random() < 0.3:
+                add(rng.choice(["S", "K"])); add("G")
         elif r < 0.55 and alive:       # config-dependent behaviour: OPER with the password of some configuration
             k = rng.choice(sorted(alive))
             pw = oppw if (oppw and rng.random() < 0.6) else rng.choice(["verifoppw", "pw-0", "pw-1", "pw-2", "pw-3", "nope"])
@@ -87,7 +117,7 @@ def gen_case(rng, ci, quick):
             if eff:
                 alive.discard(v); isoper.discard(v)
         elif r < 0.85:
-            add("S"); add("G")
+            add(rng.choice(["S", "S", "K"])); add("G")
         elif alive:
             k = rng.choice(sorted(alive))
             add(I(k, rng.choice(["JOIN #g%d" % ci, "PRIVMSG #g%d :hi" % ci, "PING p"])))
@@ -106,10 +136,17 @@ def banned_dict(s):
 def monitor(ops, obs, ann):
     """the property on the implementation's trace, with a python bookkeeping of (revision, configuration, bans)"""
     fails, cur, accepted = [], None, 0
+    expected_rev_after = {}          # raft index of every Config entry in the log -> revision in force after it
+    def note_entry(o):
+        if o.get("ent", "-") != "-":
+            for e in o["ent"].split(";"):
+                f = e.split(".")
+                if len(f) > 1 and f[1] == "config":
+                    expected_rev_after[int(f[0])] = int(cur[0])
     for idx, (tok, o) in enumerate(zip(ops, obs)):
         k = o["op"]
         a = ann[idx] if ann and idx < len(ann) else None
-        if "panic" in o or ("err" in o and k != "X"):
+        if "panic" in o or ("err" in o and k not in ("X", "H", "Q")):
             fails.append(("driver-op-failed", "op %s failed: %s" % (tok[:40], o)))
             continue
         if k == "N":
@@ -130,6 +167,34 @@ def monitor(ops, obs, ann):
                 if o["status"] == "200" or new != cur or o["grew"] != "0":
                     fails.append(("rejected-update-took-effect", "%s: status %s, grew %s, config %s -> %s" % (why, o["status"], o["grew"], cur, new)))
             cur = new
+            note_entry(o)
+        elif k == "H":
+            # a Config entry that is in the log whatever the handler saw: it takes effect iff it parses and carries revision in force + 1
+            hrev, new = int(o["hrev"]), state_of(o)
+            should = o["tp"] != "!" and hrev == int(cur[0]) + 1
+            if o.get("err") != "false" or o["grew"] != "1":
+                fails.append(("driver-op-failed", "injected Config entry was not committed: %s" % {x: o[x] for x in ("err", "grew") if x in o}))
+            elif should:
+                tb, tbl = o["tp"].split("/")
+                if new != (str(hrev), tb, tbl) or o["refused"] != "false":
+                    fails.append(("valid-update-not-applied", "Config entry with revision %d (revision in force %s) and a valid body: config %s -> %s, proposer refused=%s" % (hrev, cur[0], cur, new, o["refused"])))
+                else:
+                    accepted += 1
+            else:
+                why = "unparsable body" if o["tp"] == "!" else "revision %d while %s is in force (%s)" % (
+                    hrev, cur[0], "stale" if hrev <= int(cur[0]) else "future")
+                if new != cur or o["same"] != "1":
+                    fails.append(("out-of-sequence-config-entry-took-effect", "Config entry in the log with %s: configuration %s -> %s%s" % (
+                        why, cur, new, "" if o["same"] == "1" else " (state digest changed)")))
+                elif o["tp"] != "!" and o["refused"] != "true":
+                    fails.append(("skipped-update-not-reported", "Config entry with %s was skipped but its proposer got no error" % why))
+            cur = new
+            note_entry(o)
+        elif k == "K":
+            if "noop" in o:
+                continue
+            if o.get("cfg_same") != "true" or state_of(o) != cur:
+                fails.append(("config-lost-in-compaction", "configuration differs after a raft snapshot (FSM.Snapshot fold + Persist) and FSM.Restore: %s vs %s" % (cur, state_of(o))))
         elif k == "G":
             got = (unhx(o["hrev"]).decode(), ) + tuple(o["served"].split("/")) if o["served"] != "!" else None
             if o["status"] != "200" or got != cur or state_of(o) != cur:
@@ -158,10 +223,15 @@ def monitor(ops, obs, ann):
             if o.get("restored_cfg") != "true":
                 fails.append(("config-lost-in-snapshot", "a copy restored from the snapshot encoding has a different configuration"))
             # every accepted update is one Config entry whose revision is one higher than the previous one
+            # on the second replica, after every Config entry of the log, the revision in force must be what the bookkeeping says:
+            # +1 for an entry in sequence, unchanged for a stale / future / duplicate / unparsable one
             tr = [] if o.get("cfgtrace", "-") == "-" else [t.split(".") for t in o["cfgtrace"].split(";")]
-            revs = [int(t[1]) for t in tr]
-            if revs != list(range(1, len(revs) + 1)):
-                fails.append(("revision-not-consecutive", "revisions on the replica after each Config entry: %s" % revs))
+            got = [(int(t[0]), int(t[1])) for t in tr]
+            bad = [(i, r, expected_rev_after[i]) for i, r in got if i in expected_rev_after and expected_rev_after[i] != r]
+            steps = [b[1] - a[1] for a, b in zip(got, got[1:])]
+            if bad or any(d not in (0, 1) for d in steps):
+                fails.append(("revision-not-consecutive", "revisions on the replica after each Config entry (index, revision): %s; expected %s" % (
+                    got, [(i, expected_rev_after.get(i)) for i, _ in got])))
             if state_of(o) != cur:
                 fails.append(("config-changed-without-update", "final configuration %s differs from the last observed %s" % (state_of(o), cur)))
     return fails, accepted
@@ -183,7 +253,11 @@ def model_case(ops, obs, ann):
                 mops.append("B:%s:%s" % (hx(a["gline"][0]), hx(a["gline"][1]))); want.append("B:" + ":".join(state_of(o, "c")))
             else:
                 mops.append("O"); want.append("O:" + ":".join(state_of(o, "c")))
-        elif k == "S" and "rev" in o:
+        elif k == "H" and "hrev" in o:
+            mops.append("H:%s:%s:%s" % (o["hrev"], o["b"], o["tp"]))
+            want.append("H:%s:%s" % ("skip" if o["same"] == "1" else "eff", ":".join(state_of(o))))
+        elif k in ("S", "K") and "rev" in o:
+            # K = raft snapshot through FSM.Snapshot's fold + Persist + FSM.Restore; the model's restore is the identity
             mops.append("S"); want.append("S:" + ":".join(state_of(o)))
     return "cfg %s %s %s " % st0 + " ".join(mops), "cfg " + " ".join(want)
 
@@ -217,7 +291,9 @@ def run(ck, replay):
         "oracle from the implementation: config.FromString on every posted body (BurntSushi/toml is not modelled); configuration digests = reflection dump of "
         "config.Network without Revision/Banned",
         "modelled, not verified: net/http, BurntSushi/toml, hashicorp/raft; uint64 wrap-around of the revision is outside the modelled domain"]
-    ck.assumptions += ["posts are issued one after another (two concurrent posts naming the same revision can both pass the handler's test; outside the property's quantifier)",
+    ck.assumptions += ["no assumption on what the answering handler saw is left: the state machine skips every Config entry that does not carry revision in force + 1 "
+                       "(C16_fsm_out_of_sequence, C16_log_effects, C16_stale_post; statemachine.go b3bad2c); of two concurrent posts naming the same revision exactly one takes effect. "
+                       "The lagging handler itself is not reproduced here (single node; the sysdrv scenarios of C05 do that): its effect, the out-of-sequence entry, is injected (op H)",
                        "known gap, reported under C03 not here: Config.WhitelistedOrigins is not part of the snapshot encoding (DESIGN D7b); the generator does not set it",
                        "config.DefaultConfig.Banned is one process-wide map shared by every IRCServer that has not yet applied a Config entry; GLINE needs an operator and "
                        "therefore a Config entry first, so every history here has its own map"]
@@ -261,6 +337,10 @@ def run(ck, replay):
             if o["op"] == "F" and "status" in o:
                 key = "post/%s/%s" % (o["status"], "parses" if o["tp"] != "!" else "unparsable")
                 dist[key] = dist.get(key, 0) + 1
+        for o in obs:
+            if o["op"] == "H" and "hrev" in o:
+                key = "entry/%s/%s" % ("parses" if o["tp"] != "!" else "unparsable", "took-effect" if o["same"] != "1" else "skipped")
+                dist[key] = dist.get(key, 0) + 1
         for a, o in zip(ann, obs):
             if a and "gline" in a:
                 key = "gline/" + ("effective" if a["effective"] else "by-non-operator")
@@ -279,7 +359,8 @@ def run(ck, replay):
     ck.cov["distinct_nontrivial"] = len(nontriv)
     ck.cov["disagreements_checked"] = len(lines)
     ck.cov["traces_validated_against_impl"] = len(lines)
-    ck.cov["rule"] = ("per history a fresh node: configuration posts (valid bodies differing in operator password / limits / captcha URL / preset bans / unknown keys; "
+    ck.cov["rule"] = ("per history a fresh node: raw Config entries injected into raft with stale / duplicate / future / in-sequence revisions and unparsable bodies (what a handler "
+                      "lagging behind the log lets through, D20), also across Marshal/Unmarshal and a real raft snapshot + FSM.Restore; configuration posts (valid bodies differing in operator password / limits / captcha URL / preset bans / unknown keys; "
                       "invalid TOML, wrong types, bad durations, duplicate keys, non-UTF-8) x revision header (current, hex, stale, future, garbage, missing, empty, with "
                       "underscore), GET /config after most steps, 2-4 sessions with traffic, OPER with passwords of current/old/never configurations, GLINE by operators "
                       "and non-operators, Marshal/Unmarshal restore; ends with a second replica of the log (outputs compared entry by entry) and a restored copy. "
